@@ -37,8 +37,25 @@ def prime(o, rng=None, limit=4):
         rng.shuffle(ids)
         rng.shuffle(tss)
     n = 0
+    pats = [v for v in vals if v.startswith("[") and v.rstrip().endswith(("]", "SECONDS", "TIMES", "'")) and len(v) < 2000]
     with warnings.catch_warnings():
         warnings.simplefilter("ignore")
+        for v in pats[:2]:
+            # a pattern text is valid relative to a grammar version: let every version see it first
+            calls = [
+                lambda: stix2.v21.Indicator(pattern=v, pattern_type="stix", pattern_version="2.0", valid_from="2020-01-01T00:00:00Z"),
+                lambda: stix2.v21.Indicator(pattern=v, pattern_type="stix", pattern_version="2.1", valid_from="2020-01-01T00:00:00Z"),
+                lambda: stix2.v21.Indicator(pattern=v, pattern_type="stix", valid_from="2020-01-01T00:00:00Z"),
+                lambda: stix2.v20.Indicator(pattern=v, labels=["x"], valid_from="2020-01-01T00:00:00Z"),
+                lambda: stix2.v21.Indicator(pattern=v, pattern_type="snort", valid_from="2020-01-01T00:00:00Z"),
+            ]
+            rng.shuffle(calls)
+            for c in calls:
+                n += 1
+                try:
+                    c()
+                except Exception:
+                    pass
         for v in ids[:limit]:
             u = UUID_RE.match(v).group(2)
             calls = (
